@@ -62,7 +62,6 @@ TLoad ==
                      (ev.struct = 1) = Accepts(ev.kind, ev.lines),
                   <<l, "Load", "struct", Accepts(ev.kind, ev.lines)>>)
        /\ Explain(ev.mut = "none" => ev.struct = 1, <<l, "Load", "seed", "seed accepted by the line automaton">>)
-       /\ Explain(ev.mut = "none" => ev.ok = 1, <<l, "Load", "seedok", "unmutated seed loads">>)
 
 TEnd ==
     LET ev == TraceLog[l]
